@@ -159,21 +159,78 @@ pub fn abstract_of<const NV: usize>(st: &VerifAStarState) -> Abs<NV> {
     a
 }
 
+/// the raw symbolic inputs of a search state
+#[derive(Clone, Copy)]
+pub struct StateIn<const NV: usize> {
+    pub tc_has: [bool; NV],
+    pub tc: [f64; NV],
+    pub sol_has: [bool; NV],
+    pub par: [usize; NV],
+    pub via: [usize; NV],
+    pub q_has: [bool; NV],
+    pub q_pri: [f64; NV],
+    pub acc: [f64; NV],
+    pub it: u64,
+}
+impl<const NV: usize> StateIn<NV> {
+    pub fn any() -> Self {
+        StateIn { tc_has: kani::any(), tc: kani::any(), sol_has: kani::any(), par: kani::any(), via: kani::any(), q_has: kani::any(), q_pri: kani::any(), acc: kani::any(), it: kani::any() }
+    }
+    pub fn record(&self) {
+        let mut v = 0;
+        while v < NV {
+            rec(self.tc_has[v] as u64);
+            rec(self.tc[v].to_bits());
+            rec(self.sol_has[v] as u64);
+            rec(self.par[v] as u64);
+            rec(self.via[v] as u64);
+            rec(self.q_has[v] as u64);
+            rec(self.q_pri[v].to_bits());
+            rec(self.acc[v].to_bits());
+            v += 1;
+        }
+        rec(self.it);
+    }
+    pub fn from_vals(r: &mut Vals) -> Self {
+        let mut x = StateIn { tc_has: [false; NV], tc: [0.0; NV], sol_has: [false; NV], par: [0; NV], via: [0; NV], q_has: [false; NV], q_pri: [0.0; NV], acc: [0.0; NV], it: 0 };
+        let mut v = 0;
+        while v < NV {
+            x.tc_has[v] = r.next() != 0;
+            x.tc[v] = f64::from_bits(r.next());
+            x.sol_has[v] = r.next() != 0;
+            x.par[v] = r.next() as usize;
+            x.via[v] = r.next() as usize;
+            x.q_has[v] = r.next() != 0;
+            x.q_pri[v] = f64::from_bits(r.next());
+            x.acc[v] = f64::from_bits(r.next());
+            v += 1;
+        }
+        x.it = r.next();
+        x
+    }
+}
+
 /// an ARBITRARY search state (arrays fully symbolic) and the concrete containers holding it
 pub fn any_state<const NV: usize>() -> (Abs<NV>, VerifAStarState) {
+    let x = StateIn::<NV>::any();
+    x.record();
+    build_state(x)
+}
+
+pub fn build_state<const NV: usize>(x: StateIn<NV>) -> (Abs<NV>, VerifAStarState) {
     let mut a = Abs::<NV> {
-        tc_has: kani::any(),
-        tc: kani::any(),
-        sol_has: kani::any(),
-        par: kani::any(),
-        via: kani::any(),
-        q_has: kani::any(),
-        it: kani::any(),
+        tc_has: x.tc_has,
+        tc: x.tc,
+        sol_has: x.sol_has,
+        par: x.par,
+        via: x.via,
+        q_has: x.q_has,
+        it: x.it,
         n_tc: 0,
         n_sol: 0,
         n_q: 0,
     };
-    let q_pri: [f64; NV] = kani::any();
+    let q_pri = x.q_pri;
     let mut traversal_costs: TableMap<VertexId, Cost> = TableMap::new();
     let mut solution: TableMap<VertexId, SearchTreeBranch> = TableMap::new();
     let mut costs: InternalPriorityQueue<VertexId, ReverseCost> = InternalPriorityQueue::default();
@@ -184,7 +241,7 @@ pub fn any_state<const NV: usize>() -> (Abs<NV>, VerifAStarState) {
             traversal_costs.insert(VertexId(v), Cost::new(a.tc[v]));
         }
         if a.sol_has[v] {
-            let acc: f64 = kani::any();
+            let acc: f64 = x.acc[v];
             kani::assume(!acc.is_nan());
             solution.insert(
                 VertexId(v),
@@ -246,8 +303,48 @@ pub fn base<const NV: usize, const NE: usize>() {
 }
 
 pub fn step<const NV: usize, const NE: usize>() {
-    let (env, si) = any_env::<NV, NE>();
-    let (a, st) = any_state::<NV>();
+    let ei = EnvIn::<NV, NE>::any();
+    ei.record();
+    let xi = StateIn::<NV>::any();
+    xi.record();
+    step_core(ei, xi);
+}
+
+/// native replay of a recorded counterexample of `step`: the queue's choice among equal
+/// priorities is the only nondeterminism left; every choice the queue model admits is tried
+pub fn replay_step<const NV: usize, const NE: usize>(vals: &[u64]) {
+    replay_with(vals, |r| {
+        let ei = EnvIn::<NV, NE>::from_vals(r);
+        let xi = StateIn::<NV>::from_vals(r);
+        move || step_core(ei, xi)
+    });
+}
+
+pub fn replay_with<F: Fn() + std::panic::RefUnwindSafe, B: Fn(&mut Vals) -> F>(vals: &[u64], build: B) {
+    let mut violations = 0;
+    let mut pick = 0usize;
+    while pick < routee_compass_core::util::verif_collections::CAP {
+        let mut r = Vals { v: vals, i: 0 };
+        let f = build(&mut r);
+        let res = std::panic::catch_unwind(|| kani::concrete_playback_run(vec![pick.to_le_bytes().to_vec()], &f));
+        if let Err(e) = res {
+            let msg = if let Some(s) = e.downcast_ref::<String>() { s.clone() } else if let Some(s) = e.downcast_ref::<&str>() { s.to_string() } else { String::from("?") };
+            let benign = msg.contains("kani::assume") || msg.contains("concrete values left over") || msg.contains("Not enough det vals");
+            println!("[replay] queue choice {}: {}{}", pick, if benign { "(not a violation) " } else { "VIOLATION " }, msg);
+            if !benign {
+                violations += 1;
+            }
+        } else {
+            println!("[replay] queue choice {}: harness passed", pick);
+        }
+        pick += 1;
+    }
+    assert!(violations == 0, "the recorded counterexample reproduces natively ({} queue choice(s))", violations);
+}
+
+pub fn step_core<const NV: usize, const NE: usize>(ei: EnvIn<NV, NE>, xi: StateIn<NV>) {
+    let (env, si) = build_env::<NV, NE>(ei);
+    let (a, st) = build_state::<NV>(xi);
     kani::assume(inv(&a, &env, true));
     let reach = env.reach();
     let mut out: Option<VerifAStarState> = None;
@@ -309,6 +406,55 @@ pub fn step<const NV: usize, const NE: usize>() {
     }
     if a.it >= env.limit {
         assert!(matches!(&r, Err(e) if classify(e) == 0), "an exhausted iteration limit stops the search before the next expansion");
+    }
+    std::mem::forget(r);
+    std::mem::forget(out);
+    std::mem::forget(si);
+}
+
+/// C10, solution-size limit inside the loop: the body is entered only while the tree has at most
+/// `size_limit` entries and one iteration adds at most one entry per incident edge of the popped
+/// vertex - so the tree never exceeds the limit by more than one vertex's degree; a tree beyond the
+/// limit yields the terminated error before anything is expanded
+pub fn step_size<const NV: usize, const NE: usize>() {
+    let ei = EnvIn::<NV, NE>::any();
+    ei.record();
+    let xi = StateIn::<NV>::any();
+    xi.record();
+    let size_limit: usize = kani::any();
+    rec(size_limit as u64);
+    step_size_core(ei, xi, size_limit);
+}
+
+pub fn replay_step_size<const NV: usize, const NE: usize>(vals: &[u64]) {
+    replay_with(vals, |r| {
+        let ei = EnvIn::<NV, NE>::from_vals(r);
+        let xi = StateIn::<NV>::from_vals(r);
+        let size_limit = r.next() as usize;
+        move || step_size_core(ei, xi, size_limit)
+    });
+}
+
+pub fn step_size_core<const NV: usize, const NE: usize>(ei: EnvIn<NV, NE>, xi: StateIn<NV>, size_limit: usize) {
+    use routee_compass_core::model::termination::termination_model::TerminationModel;
+    let (env, mut si) = build_env::<NV, NE>(ei);
+    si.termination_model = std::sync::Arc::new(TerminationModel::SolutionSizeLimit { limit: size_limit });
+    let (a, st) = build_state::<NV>(xi);
+    kani::assume(inv(&a, &env, true));
+    kani::assume(size_limit <= (1usize << 20));
+    let mut out: Option<VerifAStarState> = None;
+    let r = verif_a_star_step(VertexId(env.s), env.target(), &env.direction(), None, &si, st, &mut out);
+    kani::cover!(matches!(&r, Err(e) if classify(e) == 0), "size limit reached");
+    kani::cover!(matches!(&r, Ok(true)), "the loop continues");
+    if a.n_sol > size_limit {
+        assert!(matches!(&r, Err(e) if classify(e) == 0), "a tree beyond the size limit stops the search with the terminated error");
+    } else {
+        assert!(!matches!(&r, Err(e) if classify(e) == 0), "no terminated error while the tree is within the limit");
+        if let (Ok(true), Some(st2)) = (&r, &out) {
+            let b = abstract_of::<NV>(st2);
+            assert!(b.n_sol <= size_limit + NE, "the tree exceeds the limit by at most one vertex's degree");
+            assert!(b.n_sol <= a.n_sol + NE);
+        }
     }
     std::mem::forget(r);
     std::mem::forget(out);
@@ -379,11 +525,11 @@ pub mod q {
 }
 pub mod t {
     use super::*;
+    stubs!(step_size_v2_e2, 4, step_size::<2, 2>());
     stubs!(base_v3_e4, 6, base::<3, 4>());
     stubs!(step_v3_e4, 6, step::<3, 4>());
     stubs!(step_v4_e4, 6, step::<4, 4>());
     stubs!(exit_v4_e4, 6, exit::<4, 4>());
-    stubs!(step_v4_e6, 8, step::<4, 6>());
 }
 
 
@@ -472,7 +618,23 @@ fn queue_priorities_match<const NV: usize>(st: &VerifAStarState, a: &Abs<NV>) ->
 }
 
 pub fn step_dijkstra<const NV: usize, const NE: usize>() {
-    let (env, si) = any_env::<NV, NE>();
+    let ei = EnvIn::<NV, NE>::any();
+    ei.record();
+    let xi = StateIn::<NV>::any();
+    xi.record();
+    step_dijkstra_core(ei, xi);
+}
+
+pub fn replay_step_dijkstra<const NV: usize, const NE: usize>(vals: &[u64]) {
+    replay_with(vals, |r| {
+        let ei = EnvIn::<NV, NE>::from_vals(r);
+        let xi = StateIn::<NV>::from_vals(r);
+        move || step_dijkstra_core(ei, xi)
+    });
+}
+
+pub fn step_dijkstra_core<const NV: usize, const NE: usize>(ei: EnvIn<NV, NE>, xi: StateIn<NV>) {
+    let (env, si) = build_env::<NV, NE>(ei);
     let d = least_costs(&env);
     // d is a fixpoint of relaxation (always true after NV - 1 rounds; decided by `bf_fixpoint`)
     let mut d2 = d;
@@ -482,7 +644,7 @@ pub fn step_dijkstra<const NV: usize, const NE: usize>() {
         kani::assume(d2[v] == d[v]);
         v += 1;
     }
-    let (a, st) = any_state::<NV>();
+    let (a, st) = build_state::<NV>(xi);
     kani::assume(inv(&a, &env, true));
     let pri_ok = queue_priorities_match(&st, &a);
     kani::assume(inv_d(&a, &pri_ok, &d, &env));
@@ -559,9 +721,18 @@ pub fn bf_fixpoint<const NV: usize, const NE: usize>() {
 pub mod dj {
     use super::*;
     stubs!(bf_fixpoint_v2_e2, 4, bf_fixpoint::<2, 2>());
-    stubs!(bf_fixpoint_v3_e3, 5, bf_fixpoint::<3, 3>());
     stubs!(base_dijkstra_v2_e2, 4, base_dijkstra::<2, 2>());
     stubs!(step_dijkstra_v2_e1, 3, step_dijkstra::<2, 1>());
     stubs!(step_dijkstra_v2_e2, 4, step_dijkstra::<2, 2>());
+}
+pub mod djt {
+    use super::*;
+    stubs!(base_dijkstra_v3_e3, 5, base_dijkstra::<3, 3>());
     stubs!(step_dijkstra_v3_e3, 5, step_dijkstra::<3, 3>());
+}
+/// documented attempts, in no tier: the fixpoint lemma at three vertices (a chain of floating-point
+/// minima) did not return in 2400 s
+pub mod dja {
+    use super::*;
+    stubs!(bf_fixpoint_v3_e3, 5, bf_fixpoint::<3, 3>());
 }
